@@ -525,3 +525,186 @@ class _ident:
     def __call__(self, name, path):
         from vlib.pyvc.interp import Model
         return Model(name, lambda x: x)
+
+
+def partition_contracts():
+    """C13, splitting operators against their documented meaning, for lists
+    of ANY length: the ghost sequences yoff[k] / ylen[k] give the offset and
+    length of the k-th emitted slice of the list."""
+    cs = []
+    P = 'predicate(lst[%s])'
+    L = 'len(collection)'
+    LAST = 'yoff[len(out) - 1] + ylen[len(out) - 1]'
+    common = [
+        # slices are non-empty, start at 0, and are contiguous
+        'forall(range(0, len(out)), lambda k: ylen[k] > 0 and yoff[k] >= 0)',
+        'implies(len(out) > 0, yoff[0] == 0)',
+        'forall(range(0, len(out) - 1), lambda k: yoff[k + 1] == yoff[k] + '
+        'ylen[k])',
+        # every cut is a change of the predicate value ...
+        'forall(range(1, len(out)), lambda k: %s != %s)' % (
+            P % 'yoff[k]', P % 'yoff[k] - 1'),
+        # ... and inside a slice the value never changes (maximal runs)
+        'forall(range(0, len(out)), lambda k: forall(range(yoff[k] + 1, '
+        'yoff[k] + ylen[k]), lambda j: %s == %s))' % (P % 'j', P % 'j - 1'),
+    ]
+    cs.append(Contract(
+        Q + 'slice_where', name='queries.slice_where',
+        params=dict(collection=TSeq(TVal), predicate=TFunc(1),
+                    to_list=_ident()),
+        env={'NV': NV, 'lst': None},
+        track_slices=True,
+        # NO_VALUE is an engine-internal sentinel: no expression yields it
+        requires=['forall(range(0, len(collection)), lambda j: '
+                  'predicate(collection[j]) is not NV)'],
+        ensures=[c.replace('lst[', 'collection[') for c in common] + [
+            'implies(%s == 0, len(out) == 0)' % L,
+            'implies(%s > 0, len(out) > 0 and %s == %s)' % (L, LAST, L),
+            # each emitted value IS that slice of the list
+            'forall(range(0, len(out)), lambda k: out[k] == '
+            'val(collection[yoff[k]:yoff[k] + ylen[k]]))'],
+        loops=[dict(
+            anchor='while end < len(lst)', havoc={'p1': TVal},
+            invariant=common + [
+                '0 <= start and start <= end and end <= len(lst)',
+                'implies(end > 0, start < end)',
+                'implies(end > 0, p1 == %s)' % (P % 'end - 1'),
+                'implies(end == 0, p1 is NV)',
+                'forall(range(start + 1, end), lambda j: %s == %s)' % (
+                    P % 'j', P % 'j - 1'),
+                'implies(start > 0, %s != %s)' % (P % 'start',
+                                                  P % 'start - 1'),
+                'implies(len(out) == 0, start == 0)',
+                'implies(len(out) > 0, %s == start)' % LAST,
+                'forall(range(0, len(out)), lambda k: out[k] == '
+                'val(lst[yoff[k]:yoff[k] + ylen[k]]))'])],
+        serves=('C13',), native=False))
+    # splitWhere: cut AT the elements satisfying the predicate (they are
+    # dropped); empty pieces are kept except a trailing one
+    T = 'truthy(predicate(lst[%s]))'
+    END = '(yoff[len(out) - 1] + ylen[len(out) - 1])'
+    shape = [
+        'forall(range(0, len(out)), lambda k: ylen[k] >= 0 and yoff[k] >= 0)',
+        'implies(len(out) > 0, yoff[0] == 0)',
+        # consecutive pieces are separated by exactly one dropped element,
+        # and that element satisfies the predicate
+        'forall(range(0, len(out) - 1), lambda k: yoff[k + 1] == yoff[k] + '
+        'ylen[k] + 1 and %s)' % (T % 'yoff[k] + ylen[k]'),
+        # no element inside a piece satisfies it
+        'forall(range(0, len(out)), lambda k: forall(range(yoff[k], '
+        'yoff[k] + ylen[k]), lambda j: not %s))' % (T % 'j'),
+    ]
+    cs.append(Contract(
+        Q + 'split_where', name='queries.split_where',
+        params=dict(collection=TSeq(TVal), predicate=TFunc(1),
+                    to_list=_ident()),
+        env={'lst': None}, track_slices=True,
+        ensures=[c.replace('lst[', 'collection[') for c in shape] + [
+            'implies(%s == 0, len(out) == 0)' % L,
+            # the pieces cover the list: the last one ends at the end of the
+            # list, or right before a final separator
+            'implies(%s > 0, len(out) > 0 and (%s == %s or (%s == %s - 1 and '
+            '%s)))' % (L, END, L, END, L,
+                       (T % ('%s - 1' % L)).replace('lst[', 'collection[')),
+            'forall(range(0, len(out)), lambda k: out[k] == '
+            'val(collection[yoff[k]:yoff[k] + ylen[k]]))'],
+        loops=[dict(
+            anchor='while end < len(lst)',
+            invariant=shape + [
+                '0 <= start and start <= end and end <= len(lst)',
+                'forall(range(start, end), lambda j: not %s)' % (T % 'j'),
+                'implies(len(out) == 0, start == 0)',
+                'implies(len(out) > 0, %s + 1 == start and %s)' % (
+                    END, T % 'start - 1'),
+                'forall(range(0, len(out)), lambda k: out[k] == '
+                'val(lst[yoff[k]:yoff[k] + ylen[k]]))'])],
+        serves=('C13',), native=False))
+    return cs
+
+
+def setup_merge(world):
+    setup(world)
+    world.callee_contract(Q + '_merge_dicts', raises={'TypeError': True})
+    world.recursive_contracts = True
+
+
+def merge_contracts():
+    """dict.mergeWith: one level of _merge_dicts with the recursive call
+    abstracted by its own contract (structural induction): which merger a
+    common key gets, and the depth budget handed to the nested merge."""
+    cs = []
+
+    class d_of:
+        is_factory = True
+
+        def __init__(self, keys, tag):
+            self.keys, self.tag = keys, tag
+
+        def __call__(self, name, path):
+            out = {}
+            for k in self.keys:
+                v = TVal.fresh('%s_%s' % (self.tag, k))
+                path.ghost['%s_%s' % (self.tag, k)] = v
+                out[k] = v
+            return out
+    MAP2 = 'isinstance(V2_a, "Mapping")'
+    MAP1 = 'isinstance(V1_a, "Mapping")'
+    SEQ2 = ('(isinstance(V2_a, "Sequence") and not isinstance(V2_a, "str"))')
+    SEQ1 = ('(isinstance(V1_a, "Sequence") and not isinstance(V1_a, "str"))')
+    RC = '[e for e in calls if e[0] == "contract:queries._merge_dicts"]'
+    cs.append(Contract(
+        Q + '_merge_dicts', name='queries._merge_dicts',
+        params=dict(dict1=d_of(('a', 'c'), 'V1'), dict2=d_of(('a', 'b'),
+                                                              'V2'),
+                    list_merge_func=TFunc(2), item_merger=TFunc(2),
+                    max_levels=TInt),
+        requires=['max_levels >= 0'],
+        # kinds that do not match - here, or (last clause) deeper inside
+        # the nested merge
+        raises={'TypeError': '(max_levels != 1 and %s and not %s) or '
+                '(max_levels != 1 and not %s and %s and not %s) or '
+                '(max_levels != 1 and %s and %s)' % (
+                    MAP2, MAP1, MAP2, SEQ2, SEQ1, MAP2, MAP1)},
+        ensures=[
+            # keys: union; keys of one side only keep their value
+            'len(result) == 3 and result["b"] == V2_b and '
+            'result["c"] == V1_c',
+            # a nested mapping is merged recursively with the SAME mergers
+            # and one level less of the depth budget (0 = unlimited)
+            'implies(max_levels != 1 and %s, len(%s) == 1 and '
+            'result["a"] == %s[0][2])' % (MAP2, RC, RC),
+            'all([e[1][0] == V1_a and e[1][1] == V2_a and e[1][4] == '
+            '(0 if max_levels == 0 else max_levels - 1) for e in %s])' % RC,
+            'implies(max_levels == 1 or not %s, len(%s) == 0)' % (MAP2, RC),
+            'implies(max_levels != 1 and not %s and %s, result["a"] == '
+            'list_merge_func(V1_a, V2_a))' % (MAP2, SEQ2),
+            'implies(max_levels == 1 or (not %s and not %s), result["a"] == '
+            'item_merger(V1_a, V2_a))' % (MAP2, SEQ2)],
+        serves=('C13',), native=False))
+    MD = 'contract:queries._merge_dicts'
+    # mergeWith hands the dictionaries, the mergers and the depth budget to
+    # _merge_dicts unchanged; the default item merger takes the second item
+    cs.append(Contract(
+        Q + 'merge_with', name='queries.merge_with/explicit',
+        params=dict(engine=TVal, to_list=TFunc(1), d=TVal, another=TVal,
+                    list_merger=TFunc(2), item_merger=TFunc(2),
+                    max_levels=TInt),
+        raises={'TypeError': 'True'},
+        ensures=['len(calls) == 1 and calls[0][0] == "%s"' % MD,
+                 'calls[0][1][0] == d and calls[0][1][1] == another and '
+                 'calls[0][1][2] is list_merger and calls[0][1][3] is '
+                 'item_merger and calls[0][1][4] == max_levels and '
+                 'result == calls[0][2]'],
+        serves=('C13',), native=False))
+    cs.append(Contract(
+        Q + 'merge_with', name='queries.merge_with/defaults',
+        params=dict(engine=TVal, to_list=TFunc(1), d=TVal, another=TVal,
+                    list_merger=None, item_merger=None, max_levels=TInt,
+                    X=TVal, Y=TVal),
+        raises={'TypeError': 'True'},
+        ensures=['len(calls) == 1 and calls[0][0] == "%s"' % MD,
+                 'calls[0][1][0] == d and calls[0][1][1] == another and '
+                 'calls[0][1][4] == max_levels and result == calls[0][2]',
+                 'calls[0][1][3](X, Y) == Y'],
+        serves=('C13',), native=False))
+    return cs
